@@ -547,3 +547,597 @@ Section Lin.
     exact (proj2 H).
   Qed.
 End Lin.
+
+(* ------------------------------------------------------------------ *)
+(* The monitors accept the model's own observations (model_satisfies_monitors). *)
+
+Lemma st_of_code k r : (k < 16)%N -> st_of (k + 16 * r) = k.
+Proof. intros H. unfold st_of. rewrite N.mul_comm, N.mod_add by lia. now apply N.mod_small. Qed.
+Lemma val_of_code k r : (k < 16)%N -> val_of (k + 16 * r) = r.
+Proof. intros H. unfold val_of. rewrite N.mul_comm, N.div_add by lia. rewrite N.div_small by exact H. reflexivity. Qed.
+
+Lemma combine_map_map {A B C} (f : A -> B) (g : A -> C) l : combine (map f l) (map g l) = map (fun x => (f x, g x)) l.
+Proof. induction l as [|x t IH]; cbn; [reflexivity | now rewrite IH]. Qed.
+
+Lemma flat_map_nil {A B} (f : A -> list B) l : (forall x, In x l -> f x = []) -> flat_map f l = [].
+Proof. induction l as [|x t IH]; intros H; cbn; [reflexivity|]. rewrite (H x (or_introl eq_refl)), IH; [reflexivity|]. intros y Hy. apply H. now right. Qed.
+
+Lemma set_nth_app_mid {A} (l1 l2 : list A) x y : set_nth (l1 ++ x :: l2) (length l1) y = l1 ++ y :: l2.
+Proof. induction l1 as [|h t IH]; cbn; [reflexivity | now rewrite IH]. Qed.
+
+Lemma nth_error_app_mid {A} (l1 l2 : list A) x : nth_error (l1 ++ x :: l2) (length l1) = Some x.
+Proof. induction l1 as [|h t IH]; cbn; auto. Qed.
+
+Lemma nth_set_nth_inv {A} (l : list A) a y k x' :
+  nth_error (set_nth l a y) k = Some x' -> (k = a /\ x' = y /\ a < length l) \/ nth_error l k = Some x'.
+Proof.
+  intros H. destruct (Nat.lt_ge_cases a (length l)) as [Hl|Hl].
+  - destruct (Nat.eq_dec k a) as [->|Hne].
+    + rewrite nth_error_set_nth_same in H by exact Hl. inversion H. now left.
+    + rewrite nth_error_set_nth_other in H by exact Hne. now right.
+  - rewrite set_nth_oob in H by exact Hl. now right.
+Qed.
+
+Lemma upd_map_set_nth {A B} (f : A -> B) (g : B -> B) l a x x' :
+  nth_error l a = Some x -> f x' = g (f x) -> map f (set_nth l a x') = upd (map f l) a g.
+Proof. intros G H. unfold upd. rewrite (map_nth_error f _ _ G), map_set_nth, H. reflexivity. Qed.
+
+Lemma map_set_nth_eq {A B} (f : A -> B) l a x x' : nth_error l a = Some x -> f x' = f x -> map f (set_nth l a x') = map f l.
+Proof. intros G H. rewrite map_set_nth, H. apply set_nth_same. now apply map_nth_error. Qed.
+
+Lemma upd_none {A} (l : list A) a g : nth_error l a = None -> upd l a g = l.
+Proof. intros H. unfold upd. now rewrite H. Qed.
+
+Definition kind_of (p : apc) : mkind :=
+  match p with
+  | PGate o | PDone o _ => MKOp o
+  | WGate w | WSampled w _ _ | WBlocked w _ _ | WRet w _ _ => MKWait w
+  end.
+
+Definition absA (h : list N) (x : actor) : mactor :=
+  {| mkd := kind_of (pc x); mheld := skipn (start x) h; mcanc := ctxc x; mclosed := eclosed x; msent := esent x |}.
+Definition absv (s : st) : list mactor := map (absA (vh s)) (acts s).
+
+Definition wake (bb : bc) (x : actor) : actor :=
+  match pc x with
+  | WBlocked w u ch => if closed bb ch then set_pc x (WGate w) else x
+  | _ => x
+  end.
+
+Definition Eager (s : st) : Prop :=
+  forall a x w u ch, nth_error (acts s) a = Some x -> pc x = WBlocked w u ch -> closed (b s) ch = false.
+
+Section MS.
+  Variable eqv : N -> N -> bool.
+  Notation step := (step eqv).
+  Notation cond := (cond eqv).
+  Notation Inv := (Inv eqv).
+
+  Lemma step_wake_spec s k x : nth_error (acts s) k = Some x ->
+    b (step s (Wake k)) = b s /\ val (step s (Wake k)) = val s /\ vh (step s (Wake k)) = vh s /\
+    lin (step s (Wake k)) = lin s /\ acts (step s (Wake k)) = set_nth (acts s) k (wake (b s) x).
+  Proof.
+    intros G. cbn [Model.step]. rewrite G. unfold wake.
+    destruct (pc x) as [o|o r|w|w u ch|w u ch|w u ek] eqn:Ep; try (repeat split; symmetry; now apply set_nth_same).
+    destruct (closed (b s) ch); [|repeat split; symmetry; now apply set_nth_same].
+    cbn [with_acts b val vh lin acts]. now rewrite (seta_eq _ _ _ _ G).
+  Qed.
+
+  Lemma settle_gen l2 : forall l1 s, acts s = l1 ++ l2 ->
+    let s' := fold_left (fun s a => step s (Wake a)) (seq (length l1) (length l2)) s in
+    b s' = b s /\ val s' = val s /\ vh s' = vh s /\ lin s' = lin s /\ acts s' = l1 ++ map (wake (b s)) l2.
+  Proof.
+    induction l2 as [|x l2 IH]; intros l1 s Hs; cbn [length seq fold_left map].
+    - repeat split; auto.
+    - assert (G : nth_error (acts s) (length l1) = Some x) by (rewrite Hs; apply nth_error_app_mid).
+      destruct (step_wake_spec s _ _ G) as (E1 & E2 & E3 & E4 & E5).
+      rewrite Hs, set_nth_app_mid in E5.
+      specialize (IH (l1 ++ [wake (b s) x]) (step s (Wake (length l1)))).
+      rewrite app_length in IH. cbn [length] in IH. rewrite Nat.add_1_r in IH.
+      rewrite E5, <- app_assoc in IH. specialize (IH eq_refl). cbn zeta in IH.
+      destruct IH as (F1 & F2 & F3 & F4 & F5). rewrite F1, F2, F3, F4, F5, E1, E2, E3, E4, <- app_assoc. repeat split; reflexivity.
+  Qed.
+
+  Lemma settle_spec s :
+    b (settle eqv s) = b s /\ val (settle eqv s) = val s /\ vh (settle eqv s) = vh s /\ lin (settle eqv s) = lin s /\
+    acts (settle eqv s) = map (wake (b s)) (acts s).
+  Proof. exact (settle_gen (acts s) [] s eq_refl). Qed.
+
+  Lemma settle_inv s : Inv s -> Inv (settle eqv s).
+  Proof. unfold settle. apply fold_inv. intros s0 e. apply step_inv. Qed.
+
+  Lemma settle_eager s : Eager (settle eqv s).
+  Proof.
+    destruct (settle_spec s) as (E1 & _ & _ & _ & E5). intros a x' w u ch G Ep. rewrite E1. rewrite E5 in G.
+    rewrite nth_error_map in G. destruct (nth_error (acts s) a) as [x|]; [|discriminate]. cbn in G. inversion G as [Hx]. clear G.
+    unfold wake in *. destruct (pc x) as [o|o r|w0|w0 u0 ch0|w0 u0 ch0|w0 u0 ek] eqn:Ep0; subst x'; try congruence.
+    destruct (closed (b s) ch0) eqn:Ec; [cbn [pc set_pc] in Ep; discriminate|]. congruence.
+  Qed.
+
+  (* ---- the per-actor clauses hold in every state satisfying the invariants ---- *)
+  Lemma chk_actor_ok bb v h q x :
+    aok eqv bb v h x ->
+    (forall w u ch, pc x = WBlocked w u ch -> closed bb ch = false) ->
+    chk_actor eqv v q (absA h x, code x) = [].
+  Proof.
+    intros (Hs & Hq & Hp) He. unfold chk_actor, absA, code. cbn [mkd mheld mcanc mclosed msent].
+    destruct (pc x) as [o|o r|w|w u ch|w u ch|w u ek] eqn:Ep; cbn [kind_of]; try reflexivity.
+    - replace (st_of 1) with 1%N by reflexivity. cbn [N.eqb Pos.eqb andb app]. now rewrite andb_false_r.
+    - replace (st_of 7) with 7%N by reflexivity. cbn [N.eqb Pos.eqb andb app]. now rewrite andb_false_r.
+    - replace (st_of 2) with 2%N by reflexivity. cbn [N.eqb Pos.eqb andb app].
+      destruct Hp as (H1 & H2 & H3 & H4). destruct H2 as [H2|H2]; [rewrite (He _ _ _ eq_refl) in H2; discriminate|].
+      subst u. rewrite H4. cbn [is_ok]. now rewrite andb_false_r.
+    - destruct ek.
+      + rewrite st_of_code, val_of_code by reflexivity. cbn [N.eqb Pos.eqb andb app]. rewrite andb_false_r. cbn [app].
+        destruct Hp as (H1 & H2).
+        assert (Hm : memN u (skipn (start x) h) = true).
+        { unfold memN. apply existsb_exists. exists u. split; [exact H1 | apply N.eqb_refl]. }
+        assert (Hx : existsb (fun y => is_ok (cond w y)) (skipn (start x) h) = true).
+        { apply existsb_exists. exists u. split; [exact H1 | now rewrite H2]. }
+        destruct w; try (rewrite Hm, H2; reflexivity). now rewrite Hx.
+      + rewrite st_of_code by reflexivity. cbn [N.eqb Pos.eqb andb app]. rewrite andb_false_r. cbn [app].
+        destruct Hp as (_ & [H|H]); rewrite H; [reflexivity | now rewrite orb_true_r].
+      + rewrite st_of_code by reflexivity. cbn [N.eqb Pos.eqb andb app]. rewrite andb_false_r. cbn [app].
+        destruct Hp as (_ & H). now rewrite H.
+      + rewrite st_of_code by reflexivity. cbn [N.eqb Pos.eqb andb app]. rewrite andb_false_r. cbn [app].
+        destruct Hp as (_ & y & H1 & H2).
+        assert (Hx : existsb (fun y => is_err (cond w y)) (skipn (start x) h) = true).
+        { apply existsb_exists. exists y. split; [exact H1 | now rewrite H2]. }
+        now rewrite Hx.
+  Qed.
+
+  Lemma chk_all s q : Inv s -> Eager s ->
+    flat_map (chk_actor eqv (val s) q) (combine (absv s) (obs s)) = [].
+  Proof.
+    intros (_ & _ & Ha) He. unfold absv, obs. rewrite combine_map_map, flat_map_concat_map, map_map, <- flat_map_concat_map.
+    apply flat_map_nil. intros x Hx. apply In_nth_error in Hx as [a G].
+    apply (chk_actor_ok (b s)); [eauto|]. intros w u ch Ep. eauto.
+  Qed.
+
+  (* ---- frames of the model steps ---- *)
+  Lemma absA_set_pc h x p : kind_of p = kind_of (pc x) -> absA h (set_pc x p) = absA h x.
+  Proof. intros H. unfold absA. cbn [pc set_pc start ctxc eclosed esent]. now rewrite H. Qed.
+
+  Lemma step_frame s e : (forall a, e <> Sect a) ->
+    b (step s e) = b s /\ val (step s e) = val s /\ vh (step s e) = vh s.
+  Proof.
+    intros Hne. destruct e as [o|w hc|a|a|a|a|a|a|a m|a]; cbn [Model.step]; try (repeat split; reflexivity);
+      [exfalso; now apply (Hne a)| | | | | | |].
+    all: destruct (nth_error (acts s) a) as [x|] eqn:G; [|repeat split; reflexivity].
+    - destruct (pc x) as [o|o r|w|w u ch|w u ch|w u ek]; try (repeat split; reflexivity). destruct (cond w u); repeat split; reflexivity.
+    - destruct (pc x) as [o|o r|w|w u ch|w u ch|w u ek]; try (repeat split; reflexivity). destruct (closed (b s) ch); repeat split; reflexivity.
+    - destruct (pc x) as [o|o r|w|w u ch|w u ch|w u ek]; try (repeat split; reflexivity). destruct (ctxc x); repeat split; reflexivity.
+    - destruct (pc x) as [o|o r|w|w u ch|w u ch|w u ek]; try (repeat split; reflexivity).
+      destruct (errq x) as [|[|] q]; try (repeat split; reflexivity). destruct (eclosed x); repeat split; reflexivity.
+    - repeat split; reflexivity.
+    - destruct (hasch x && negb (eclosed x)); repeat split; reflexivity.
+    - destruct (hasch x); repeat split; reflexivity.
+  Qed.
+
+  Ltac absv_same G :=
+    unfold absv; cbn [acts vh with_acts]; rewrite ?(seta_eq _ _ _ _ G);
+    apply (map_set_nth_eq _ _ _ _ _ G); unfold absA; cbn [pc set_pc start ctxc eclosed esent kind_of];
+    repeat match goal with H : pc _ = _ |- _ => rewrite H end; reflexivity.
+
+  Lemma step_absv_pc s e :
+    match e with Eval _ | Wake _ | CancelWake _ | ErrWake _ => True | _ => False end ->
+    absv (step s e) = absv s.
+  Proof.
+    destruct e as [o|w hc|a|a|a|a|a|a|a m|a]; try contradiction; intros _; cbn [Model.step].
+    all: destruct (nth_error (acts s) a) as [x|] eqn:G; [|reflexivity].
+    all: destruct (pc x) as [o|o r|w|w u ch|w u ch|w u ek] eqn:Ep; try reflexivity.
+    - destruct (cond w u); absv_same G.
+    - destruct (closed (b s) ch); [absv_same G | reflexivity].
+    - destruct (ctxc x); [absv_same G | reflexivity].
+    - destruct (errq x) as [|[|] q]; [destruct (eclosed x); [absv_same G | reflexivity] | absv_same G | absv_same G].
+  Qed.
+
+  Lemma step_absv_cancel s a : absv (step s (CancelCtx a)) = upd (absv s) a set_canc.
+  Proof.
+    cbn [Model.step]. destruct (nth_error (acts s) a) as [x|] eqn:G.
+    - unfold absv. cbn [acts vh with_acts]. now apply upd_map_set_nth with (x := x).
+    - rewrite upd_none; [reflexivity|]. unfold absv. now rewrite nth_error_map, G.
+  Qed.
+
+  Lemma step_absv_send s a m x : nth_error (acts s) a = Some x -> hasch x = true -> eclosed x = false ->
+    absv (step s (ErrSend a m)) = if m then upd (absv s) a set_sent else absv s.
+  Proof.
+    intros G H1 H2. cbn [Model.step]. rewrite G, H1, H2. cbn [andb negb]. unfold absv. cbn [acts vh with_acts]. destruct m.
+    - apply upd_map_set_nth with (x := x); [exact G|]. unfold absA, set_sent. cbn [pc start ctxc eclosed esent mkd mheld mcanc mclosed msent].
+      now rewrite orb_true_r, ?H2.
+    - apply (map_set_nth_eq _ _ _ _ _ G). unfold absA. cbn [pc start ctxc eclosed esent]. now rewrite orb_false_r, ?H2.
+  Qed.
+
+  Lemma step_absv_close s a x : nth_error (acts s) a = Some x -> hasch x = true ->
+    absv (step s (ErrClose a)) = upd (absv s) a set_closed.
+  Proof.
+    intros G H1. cbn [Model.step]. rewrite G, H1. unfold absv. cbn [acts vh with_acts].
+    now apply upd_map_set_nth with (x := x).
+  Qed.
+
+  (* which actor can be blocked after a step *)
+  Lemma step_blocked_from s e k x' w u ch :
+    nth_error (acts (step s e)) k = Some x' -> pc x' = WBlocked w u ch ->
+    exists x, nth_error (acts s) k = Some x /\ (pc x = WBlocked w u ch \/ (e = Eval k /\ pc x = WSampled w u ch)).
+  Proof.
+    intros Hk Ep'.
+    assert (Hsame : forall a y x, nth_error (acts s) a = Some x -> nth_error (set_nth (acts s) a y) k = Some x' ->
+              (pc y = pc x \/ forall w u ch, pc y <> WBlocked w u ch) ->
+              exists x0, nth_error (acts s) k = Some x0 /\ (pc x0 = WBlocked w u ch \/ (e = Eval k /\ pc x0 = WSampled w u ch))).
+    { intros a y x G H Hy. apply nth_set_nth_inv in H as [(-> & -> & _)|H]; [|exists x'; auto].
+      destruct Hy as [Hy|Hy]; [exists x; split; [exact G | left; congruence] | exfalso; now apply (Hy w u ch)]. }
+    destruct e as [o|w0 hc|a|a|a|a|a|a|a m|a]; cbn [Model.step] in Hk.
+    - cbn [acts with_acts] in Hk. apply nth_error_app_inv in Hk as [Hk| ->]; [exists x'; auto | discriminate].
+    - cbn [acts with_acts] in Hk. apply nth_error_app_inv in Hk as [Hk| ->]; [exists x'; auto | discriminate].
+    - destruct (nth_error (acts s) a) as [x|] eqn:G; [|exists x'; auto].
+      destruct (pc x) as [o|o r|w1|w1 u1 ch1|w1 u1 ch1|w1 u1 ek] eqn:Ep; try (exists x'; auto; fail).
+      + assert (H : exists r l, nth_error (seta s a (PDone o r)) k = Some x' /\ l = tt).
+        { destruct o as [|v|[|k0|k0|]]; try (eexists; exists tt; split; [exact Hk | reflexivity]);
+            match type of Hk with context [if ?c then _ else _] => destruct c end; eexists; exists tt; split; try exact Hk; reflexivity. }
+        destruct H as (r & _ & H & _). rewrite (seta_eq _ _ _ _ G) in H. apply (Hsame _ _ _ G H). right. cbn [pc set_pc]. discriminate.
+      + destruct (getch (b s)) as [b' ch']. cbn [acts] in Hk. rewrite (seta_eq _ _ _ _ G) in Hk.
+        apply (Hsame _ _ _ G Hk). right. cbn [pc set_pc]. discriminate.
+    - destruct (nth_error (acts s) a) as [x|] eqn:G; [|exists x'; auto].
+      destruct (pc x) as [o|o r|w1|w1 u1 ch1|w1 u1 ch1|w1 u1 ek] eqn:Ep; try (exists x'; auto; fail).
+      destruct (cond w1 u1); cbn [acts with_acts] in Hk; rewrite (seta_eq _ _ _ _ G) in Hk.
+      + apply nth_set_nth_inv in Hk as [(-> & -> & _)|Hk]; [|exists x'; auto].
+        cbn [pc set_pc] in Ep'. inversion Ep'; subst. exists x. split; [exact G | right; auto].
+      + apply (Hsame _ _ _ G Hk). right. cbn [pc set_pc]. discriminate.
+      + apply (Hsame _ _ _ G Hk). right. cbn [pc set_pc]. discriminate.
+    - destruct (nth_error (acts s) a) as [x|] eqn:G; [|exists x'; auto].
+      destruct (pc x) as [o|o r|w1|w1 u1 ch1|w1 u1 ch1|w1 u1 ek] eqn:Ep; try (exists x'; auto; fail).
+      destruct (closed (b s) ch1); [|exists x'; auto]. cbn [acts with_acts] in Hk; rewrite (seta_eq _ _ _ _ G) in Hk.
+      apply (Hsame _ _ _ G Hk). right. cbn [pc set_pc]. discriminate.
+    - destruct (nth_error (acts s) a) as [x|] eqn:G; [|exists x'; auto].
+      destruct (pc x) as [o|o r|w1|w1 u1 ch1|w1 u1 ch1|w1 u1 ek] eqn:Ep; try (exists x'; auto; fail).
+      destruct (ctxc x); [|exists x'; auto]. cbn [acts with_acts] in Hk; rewrite (seta_eq _ _ _ _ G) in Hk.
+      apply (Hsame _ _ _ G Hk). right. cbn [pc set_pc]. discriminate.
+    - destruct (nth_error (acts s) a) as [x|] eqn:G; [|exists x'; auto].
+      destruct (pc x) as [o|o r|w1|w1 u1 ch1|w1 u1 ch1|w1 u1 ek] eqn:Ep; try (exists x'; auto; fail).
+      destruct (errq x) as [|[|] q].
+      + destruct (eclosed x); [|exists x'; auto]. cbn [acts with_acts] in Hk; rewrite (seta_eq _ _ _ _ G) in Hk.
+        apply (Hsame _ _ _ G Hk). right. cbn [pc set_pc]. discriminate.
+      + cbn [acts with_acts] in Hk. apply (Hsame _ _ _ G Hk). right. cbn [pc]. discriminate.
+      + cbn [acts with_acts] in Hk. apply (Hsame _ _ _ G Hk). right. cbn [pc]. discriminate.
+    - destruct (nth_error (acts s) a) as [x|] eqn:G; [|exists x'; auto].
+      cbn [acts with_acts] in Hk. apply (Hsame _ _ _ G Hk). left. reflexivity.
+    - destruct (nth_error (acts s) a) as [x|] eqn:G; [|exists x'; auto].
+      destruct (hasch x && negb (eclosed x)); [|exists x'; auto].
+      cbn [acts with_acts] in Hk. apply (Hsame _ _ _ G Hk). left. reflexivity.
+    - destruct (nth_error (acts s) a) as [x|] eqn:G; [|exists x'; auto].
+      destruct (hasch x); [|exists x'; auto].
+      cbn [acts with_acts] in Hk. apply (Hsame _ _ _ G Hk). left. reflexivity.
+  Qed.
+
+  (* Eager is kept by every step that neither is a section nor evaluates a sample *)
+  Lemma step_eager s e : (forall a, e <> Sect a) -> (forall a, e <> Eval a) -> Eager s -> Eager (step s e).
+  Proof.
+    intros H1 H2 He k x' w u ch Hk Ep. destruct (step_frame s e H1) as (Eb & _ & _). rewrite Eb.
+    destruct (step_blocked_from _ _ _ _ _ _ _ Hk Ep) as (x & G & [Hx|[Hx _]]); [eauto | exfalso; now apply (H2 k)].
+  Qed.
+End MS.
+
+Definition MR (h : hst) (m : mstate) : Prop :=
+  meq m = eqc h /\ mcur m = val (ms h) /\ mas m = absv (ms h) /\ mprev m = obs (ms h).
+Definition HInv (h : hst) : Prop := Inv (eq_of_code (eqc h)) (ms h) /\ Eager (ms h).
+
+Lemma skipn_last {A} (l : list A) x : skipn (length (l ++ [x]) - 1) (l ++ [x]) = [x].
+Proof.
+  rewrite app_length. cbn [length]. replace (length l + 1 - 1) with (length l) by lia.
+  rewrite skipn_app, skipn_all, Nat.sub_diag. reflexivity.
+Qed.
+
+Section MS2.
+  Variable eqv : N -> N -> bool.
+  Notation step := (step eqv).
+  Notation cond := (cond eqv).
+  Notation Inv := (Inv eqv).
+  Notation cell_step := (cell_step eqv).
+
+  Lemma compare_false_neq x y : compare eqv x y = false -> (y =? x)%N = false.
+  Proof. unfold compare. intros H. apply orb_false_iff in H as [H _]. now rewrite N.eqb_sym. Qed.
+
+  Lemma sect_writer_vh s a x o : nth_error (acts s) a = Some x -> pc x = PGate o ->
+    vh (step s (Sect a)) = if (fst (cell_step (val s) o) =? val s)%N then vh s else vh s ++ [fst (cell_step (val s) o)].
+  Proof.
+    intros G Ep. cbn [Model.step]. rewrite G, Ep.
+    destruct o as [|v|[|k|k|]]; cbn [Model.cell_step apply_f fst snd]; try (rewrite N.eqb_refl; reflexivity).
+    all: match goal with |- context [if compare eqv ?p ?q then _ else _] => destruct (compare eqv p q) eqn:Ec end;
+      cbn [fin_keep fin_store vh]; [now rewrite N.eqb_refl | now rewrite (compare_false_neq _ _ Ec)].
+  Qed.
+
+  Lemma absA_wake h bb x : absA h (wake bb x) = absA h x.
+  Proof.
+    unfold wake. destruct (pc x) as [o|o r|w|w u ch|w u ch|w u ek] eqn:Ep; try reflexivity.
+    destruct (closed bb ch); [|reflexivity]. apply absA_set_pc. now rewrite Ep.
+  Qed.
+
+  Lemma absv_settle s : absv (settle eqv s) = absv s.
+  Proof.
+    destruct (settle_spec eqv s) as (_ & _ & E3 & _ & E5). unfold absv. rewrite E3, E5, map_map.
+    apply map_ext. intros x. apply absA_wake.
+  Qed.
+
+  Lemma absA_add_held h v x : start x < length h -> absA (h ++ [v]) x = add_held v (absA h x).
+  Proof.
+    intros H. unfold absA, add_held. cbn [mkd mheld mcanc mclosed msent]. f_equal.
+    rewrite skipn_app. replace (start x - length h) with 0 by lia. reflexivity.
+  Qed.
+
+  Lemma absv_sect_writer s a x o : Inv s -> nth_error (acts s) a = Some x -> pc x = PGate o ->
+    absv (step s (Sect a)) =
+    if (fst (cell_step (val s) o) =? val s)%N then absv s else map (add_held (fst (cell_step (val s) o))) (absv s).
+  Proof.
+    intros (_ & _ & Ha) G Ep. destruct (sect_writer eqv s a x o G Ep) as (_ & _ & E3).
+    unfold absv. rewrite E3, (sect_writer_vh s a x o G Ep).
+    rewrite (map_set_nth_eq _ _ _ x) by (auto; apply absA_set_pc; now rewrite Ep).
+    destruct (fst (cell_step (val s) o) =? val s)%N; [reflexivity|].
+    rewrite map_map. apply map_ext_in. intros y Hy. apply In_nth_error in Hy as [k Hk].
+    apply absA_add_held. now destruct (Ha _ _ Hk) as (H & _).
+  Qed.
+
+  Lemma code_wake_done bb x o r : pc x = PDone o r -> code (wake bb x) = (3 + 16 * r)%N.
+  Proof. intros Ep. unfold wake. rewrite Ep. unfold code. now rewrite Ep. Qed.
+
+  (* ---- the monitor on a step without a linearization point ---- *)
+  Lemma mon_nolp m ev s' :
+    mon_lp m (mon_event m ev) ev (obs s') = None ->
+    mon_event m ev = absv s' -> val s' = mcur m ->
+    Proofs.Inv (eq_of_code (meq m)) s' -> Eager s' ->
+    mon_ev m ev (obs s') = ({| meq := meq m; mcur := val s'; mas := absv s'; mprev := obs s' |}, []).
+  Proof.
+    intros Hlp Hev Hv HI HE. unfold mon_ev. cbv zeta. rewrite Hlp, N.eqb_refl, Hev, <- Hv.
+    rewrite (chk_all _ s' _ HI HE). reflexivity.
+  Qed.
+End MS2.
+
+Lemma hstep_nolp h m ev s' :
+  MR h m -> Proofs.Inv (eq_of_code (eqc h)) s' -> Eager s' -> val s' = val (ms h) ->
+  mon_event m ev = absv s' -> mon_lp m (mon_event m ev) ev (obs s') = None ->
+  let h' := {| eqc := eqc h; ms := s' |} in
+  HInv h' /\ MR h' (fst (mon_ev m ev (obs s'))) /\ snd (mon_ev m ev (obs s')) = [].
+Proof.
+  intros (R1 & R2 & R3 & R4) HI HE Hv Hev Hlp. cbn zeta.
+  rewrite (mon_nolp m ev s' Hlp Hev); [|congruence|now rewrite R1|exact HE].
+  cbn [fst snd]. split; [split; [exact HI | exact HE]|]. split; [|reflexivity].
+  unfold MR. cbn [meq mcur mas mprev eqc ms]. auto.
+Qed.
+
+Lemma absv_call eqv s p hc : Proofs.Inv eqv s ->
+  absv (with_acts s (acts s ++ [new_actor p hc (length (vh s) - 1)])) = absv s ++ [mnew (kind_of p) (val s)].
+Proof.
+  intros (_ & (l & Hl) & _). unfold absv. cbn [acts vh with_acts]. rewrite map_app. cbn [map]. f_equal. f_equal.
+  unfold absA, mnew. cbn [pc start ctxc eclosed esent new_actor]. rewrite Hl at 1 2. now rewrite skipn_last.
+Qed.
+
+Lemma mon_lp_wait m ml a o y w : nth_error ml a = Some y -> mkd y = MKWait w -> mon_lp m ml (Some (HStep a)) o = None.
+Proof.
+  intros G Hk. cbn [mon_lp]. rewrite G. destruct (nth_error (mprev m) a); [|reflexivity]. destruct (nth_error o a); [|reflexivity].
+  now rewrite Hk.
+Qed.
+
+Section MS3.
+  Variable eqv : N -> N -> bool.
+  Notation step := (step eqv).
+  Notation Inv := (Proofs.Inv eqv).
+
+  (* the sampling section of a waiter *)
+  Lemma sect_waiter_ok s a x w : Inv s -> Eager s -> nth_error (acts s) a = Some x -> pc x = WGate w ->
+    let s1 := step s (Sect a) in
+    val s1 = val s /\ absv s1 = absv s /\ Eager s1 /\
+    (forall x1 w1 u1 ch1, nth_error (acts s1) a = Some x1 -> pc x1 = WSampled w1 u1 ch1 -> closed (b s1) ch1 = false).
+  Proof.
+    intros HI HE G Ep. pose proof HI as (Hwf & _ & Ha). cbn zeta.
+    pose proof (step_blocked_from eqv s (Sect a)) as Hbf.
+    cbn [Model.step] in *. rewrite G, Ep in *.
+    pose proof (getch_open (b s) Hwf) as Hopen. pose proof (getch_closed_same (b s) ) as Hsame.
+    destruct (getch (b s)) as [b' ch'] eqn:EGC. cbn [fst] in *. destruct Hopen as (Hlt & Hop & Hcur).
+    cbn [val b acts vh]. split; [reflexivity|]. split; [|split].
+    - unfold absv. cbn [acts vh]. rewrite (seta_eq _ _ _ _ G). apply (map_set_nth_eq _ _ _ _ _ G).
+      apply absA_set_pc. now rewrite Ep.
+    - intros k x' w1 u1 ch1 Hk Ep1. cbn [b acts] in *.
+      destruct (Hbf k x' w1 u1 ch1 Hk Ep1) as (x0 & G0 & [Hx0|[Habs _]]); [|discriminate].
+      destruct (Ha _ _ G0) as (_ & _ & Hp). rewrite Hx0 in Hp. destruct Hp as (Hlt1 & _).
+      rewrite Hsame by auto. eauto.
+    - intros x1 w1 u1 ch1 Hk Ep1. cbn [acts b] in *. rewrite (seta_eq _ _ _ _ G) in Hk.
+      rewrite nth_error_set_nth_same in Hk by (eapply nth_error_nth_len; eauto). inversion Hk; subst x1.
+      cbn [pc set_pc] in Ep1. inversion Ep1; subst. exact Hop.
+  Qed.
+
+  Lemma eval_eager s a : Eager s ->
+    (forall x w u ch, nth_error (acts s) a = Some x -> pc x = WSampled w u ch -> closed (b s) ch = false) ->
+    Eager (step s (Eval a)).
+  Proof.
+    intros HE Hs k x' w u ch Hk Ep. destruct (step_frame eqv s (Eval a)) as (Eb & _ & _); [discriminate|]. rewrite Eb.
+    destruct (step_blocked_from eqv _ _ _ _ _ _ _ Hk Ep) as (x & G & [Hx|[Hx1 Hx2]]); [eauto|].
+    inversion Hx1; subst k. eauto.
+  Qed.
+
+  Lemma eval_wake_eager s a : Eager s -> Eager (step (step s (Eval a)) (Wake a)).
+  Proof.
+    intros HE. set (s1 := step s (Eval a)). destruct (step_frame eqv s (Eval a)) as (Eb & _ & _); [discriminate|].
+    fold s1 in Eb. destruct (nth_error (acts s1) a) as [x1|] eqn:G1.
+    - destruct (step_wake_spec eqv s1 a x1 G1) as (F1 & _ & _ & _ & F5).
+      intros k x' w u ch Hk Ep. rewrite F1, Eb. rewrite F5 in Hk.
+      pose proof (nth_error_nth_len _ _ _ G1) as Hl.
+      destruct (Nat.eq_dec k a) as [->|Hne].
+      + rewrite nth_error_set_nth_same in Hk by exact Hl. inversion Hk as [Hx]. clear Hk.
+        unfold wake in *. destruct (pc x1) as [o|o r|w0|w0 u0 ch0|w0 u0 ch0|w0 u0 ek] eqn:Ep0; subst x'; try congruence.
+        destruct (closed (b s1) ch0) eqn:Ec; [cbn [pc set_pc] in Ep; discriminate|]. rewrite Eb in Ec. congruence.
+      + rewrite nth_error_set_nth_other in Hk by exact Hne.
+        destruct (step_blocked_from eqv _ _ _ _ _ _ _ Hk Ep) as (x & G & [Hx|[Hx1 _]]); [eauto | inversion Hx1; congruence].
+    - assert (Hid : step s1 (Wake a) = s1) by (cbn [Model.step]; now rewrite G1). rewrite Hid.
+      intros k x' w u ch Hk Ep. rewrite Eb.
+      destruct (step_blocked_from eqv _ _ _ _ _ _ _ Hk Ep) as (x & G & [Hx|[Hx1 _]]); [eauto|].
+      inversion Hx1; subst k. congruence.
+  Qed.
+End MS3.
+
+Lemma nth_error_absv s a x : nth_error (acts s) a = Some x -> nth_error (absv s) a = Some (absA (vh s) x).
+Proof. intros G. unfold absv. now apply map_nth_error. Qed.
+
+Lemma some_pair_inj {A B} (a a' : A) (b b' : B) : Some (a, b) = Some (a', b') -> a = a' /\ b = b'.
+Proof. intros H. inversion H. auto. Qed.
+
+Lemma hstep_writer h m a x op : HInv h -> MR h m -> nth_error (acts (ms h)) a = Some x -> pc x = PGate op ->
+  let s' := settle (eq_of_code (eqc h)) (step (eq_of_code (eqc h)) (ms h) (Sect a)) in
+  let h' := {| eqc := eqc h; ms := s' |} in
+  HInv h' /\ MR h' (fst (mon_ev m (Some (HStep a)) (obs s'))) /\ snd (mon_ev m (Some (HStep a)) (obs s')) = [].
+Proof.
+  intros (HI & HE) (R1 & R2 & R3 & R4) G Ep. set (eqv := eq_of_code (eqc h)) in *. set (s := ms h) in *.
+  cbn zeta. set (s1 := step eqv s (Sect a)). set (s' := settle eqv s1).
+  destruct (sect_writer eqv s a x op G Ep) as (E1 & _ & E3). fold s1 in E1, E3.
+  pose proof (absv_sect_writer eqv s a x op HI G Ep) as Eabs. fold s1 in Eabs.
+  destruct (settle_spec eqv s1) as (_ & F2 & _ & _ & F5). fold s' in F2, F5.
+  pose proof (absv_settle eqv s1) as Fabs. fold s' in Fabs.
+  assert (HI' : Inv eqv s') by (apply settle_inv, step_inv; exact HI).
+  assert (HE' : Eager s') by apply settle_eager.
+  set (r := snd (cell_step eqv (val s) op)) in *.
+  assert (Ho : nth_error (obs s') a = Some (3 + 16 * r)%N).
+  { unfold obs. rewrite F5, map_map. erewrite map_nth_error; [|rewrite E3; apply nth_error_set_nth_same; eapply nth_error_nth_len; eauto].
+    reflexivity. }
+  assert (Hlp : mon_lp m (mon_event m (Some (HStep a))) (Some (HStep a)) (obs s') = Some (op, r)).
+  { cbn [mon_lp mon_event]. rewrite R3, (nth_error_absv _ _ _ G), R4. unfold obs at 1. rewrite (map_nth_error code _ _ G), Ho.
+    unfold absA. cbn [mkd kind_of]. rewrite Ep. cbn [kind_of]. unfold code. rewrite Ep.
+    rewrite st_of_code, val_of_code by reflexivity. reflexivity. }
+  split; [split; assumption|].
+  unfold mon_ev. cbv zeta. rewrite Hlp. cbv beta iota. rewrite R1, R2. fold eqv.
+  assert (Hml : (if (fst (cell_step eqv (val s) op) =? val s)%N then mon_event m (Some (HStep a))
+                 else map (add_held (fst (cell_step eqv (val s) op))) (mon_event m (Some (HStep a)))) = absv s').
+  { cbn [mon_event]. rewrite R3, Fabs, Eabs. reflexivity. }
+  rewrite Hml. rewrite <- E1, <- F2.
+  rewrite (chk_all eqv s' _ HI' HE'), app_nil_r. cbn [fst snd]. split.
+  - unfold MR. cbn [meq mcur mas mprev eqc ms]. auto.
+  - destruct op as [|v|f]; try reflexivity; fold r; now rewrite N.eqb_refl.
+Qed.
+
+Lemma hstep_ev_ok h m ev h' o : HInv h -> MR h m -> hstep_ev h ev = Some (h', o) ->
+  HInv h' /\ MR h' (fst (mon_ev m (Some ev) o)) /\ snd (mon_ev m (Some ev) o) = [].
+Proof.
+  intros HH HR H. pose proof HH as (HI & HE). pose proof HR as (R1 & R2 & R3 & R4).
+  unfold hstep_ev in H. cbv zeta in H. set (eqv := eq_of_code (eqc h)) in *. set (s := ms h) in *.
+  destruct ev as [o0|w hc|a|a|a em].
+  - (* call *) apply some_pair_inj in H as [<- <-].
+    apply (hstep_nolp h m (Some (HCall o0))); auto.
+    + now apply step_inv.
+    + apply step_eager; [discriminate | discriminate | exact HE].
+    + cbn [mon_event]. rewrite R3, R2. symmetry. exact (absv_call eqv s (PGate o0) false HI).
+  - apply some_pair_inj in H as [<- <-].
+    apply (hstep_nolp h m (Some (HWait w hc))); auto.
+    + now apply step_inv.
+    + apply step_eager; [discriminate | discriminate | exact HE].
+    + cbn [mon_event]. rewrite R3, R2. symmetry. exact (absv_call eqv s (WGate w) hc HI).
+  - (* step *)
+    destruct (nth_error (acts s) a) as [x|] eqn:G; [|discriminate].
+    destruct (pc x) as [op|op r|w|w u ch|w u ch|w u ek] eqn:Ep; try discriminate.
+    + apply some_pair_inj in H as [<- <-]. exact (hstep_writer h m a x op HH HR G Ep).
+    + (* waiter at its entry gate *)
+      destruct (sect_waiter_ok eqv s a x w HI HE G Ep) as (V1 & A1 & HE1 & Hopen).
+      assert (HI1 : Inv eqv (step eqv s (Sect a))) by now apply step_inv.
+      assert (Hlp : forall o', mon_lp m (mon_event m (Some (HStep a))) (Some (HStep a)) o' = None).
+      { intros o'. apply (mon_lp_wait m _ a o' (absA (vh s) x) w); [cbn [mon_event]; rewrite R3; now apply nth_error_absv|].
+        unfold absA. cbn [mkd]. now rewrite Ep. }
+      destruct (negb (ctxc x) && negb (err_ready x)).
+      * apply some_pair_inj in H as [<- <-]. apply (hstep_nolp h m (Some (HStep a))); auto. cbn [mon_event]. now rewrite R3, A1.
+      * destruct (ctxc x && err_ready x); [discriminate|]. apply some_pair_inj in H as [<- <-].
+        set (s1 := step eqv s (Sect a)) in *. set (s2 := step eqv s1 (Eval a)). set (s3 := step eqv s2 (CancelWake a)).
+        destruct (step_frame eqv s1 (Eval a)) as (_ & V2 & _); [discriminate|].
+        destruct (step_frame eqv s2 (CancelWake a)) as (_ & V3 & _); [discriminate|].
+        destruct (step_frame eqv s3 (ErrWake a)) as (_ & V4 & _); [discriminate|].
+        apply (hstep_nolp h m (Some (HStep a))); auto.
+        -- repeat apply step_inv. exact HI.
+        -- apply step_eager; [discriminate | discriminate |]. apply step_eager; [discriminate | discriminate |].
+           apply eval_eager; [exact HE1 | exact Hopen].
+        -- rewrite V4. unfold s3. rewrite V3. unfold s2. rewrite V2. exact V1.
+        -- cbn [mon_event]. rewrite R3, <- A1.
+           rewrite (step_absv_pc eqv s3 (ErrWake a) I). unfold s3. rewrite (step_absv_pc eqv s2 (CancelWake a) I).
+           unfold s2. now rewrite (step_absv_pc eqv s1 (Eval a) I).
+    + (* waiter at its exit gate *)
+      apply some_pair_inj in H as [<- <-]. set (s1 := step eqv s (Eval a)).
+      destruct (step_frame eqv s (Eval a)) as (_ & V1 & _); [discriminate|].
+      destruct (step_frame eqv s1 (Wake a)) as (_ & V2 & _); [discriminate|].
+      apply (hstep_nolp h m (Some (HStep a))); auto.
+      * repeat apply step_inv. exact HI.
+      * now apply eval_wake_eager.
+      * rewrite V2. exact V1.
+      * cbn [mon_event]. rewrite R3, (step_absv_pc eqv s1 (Wake a) I). unfold s1. now rewrite (step_absv_pc eqv s (Eval a) I).
+      * apply (mon_lp_wait m _ a _ (absA (vh s) x) w); [cbn [mon_event]; rewrite R3; now apply nth_error_absv|].
+        unfold absA. cbn [mkd]. now rewrite Ep.
+  - (* cancel *)
+    destruct (nth_error (acts s) a) as [x|] eqn:G; [|discriminate].
+    destruct (waiting_pc (pc x) && negb (ctxc x) && negb (err_ready x)); [|discriminate].
+    apply some_pair_inj in H as [<- <-]. set (s1 := step eqv s (CancelCtx a)).
+    destruct (step_frame eqv s (CancelCtx a)) as (_ & V1 & _); [discriminate|].
+    destruct (step_frame eqv s1 (CancelWake a)) as (_ & V2 & _); [discriminate|].
+    apply (hstep_nolp h m (Some (HCancel a))); auto.
+    + repeat apply step_inv. exact HI.
+    + apply step_eager; [discriminate | discriminate |]. apply step_eager; [discriminate | discriminate | exact HE].
+    + rewrite V2. exact V1.
+    + cbn [mon_event]. rewrite R3, (step_absv_pc eqv s1 (CancelWake a) I). unfold s1. now rewrite (step_absv_cancel eqv s a).
+  - (* error channel *)
+    destruct (nth_error (acts s) a) as [x|] eqn:G; [|discriminate].
+    destruct (waiting_pc (pc x) && hasch x && negb (ctxc x) && negb (eclosed x)) eqn:Eg; [|discriminate].
+    apply andb_true_iff in Eg as [Eg Hcl]. apply andb_true_iff in Eg as [Eg _]. apply andb_true_iff in Eg as [_ Hch].
+    apply negb_true_iff in Hcl.
+    apply some_pair_inj in H as [<- <-].
+    set (e1 := match em with MNil => ErrSend a false | MErr => ErrSend a true | MClose => ErrClose a end) in *.
+    set (s1 := step eqv s e1).
+    assert (Hne1 : (forall a0, e1 <> Sect a0) /\ (forall a0, e1 <> Eval a0)) by (unfold e1; destruct em; split; discriminate).
+    destruct (step_frame eqv s e1 (proj1 Hne1)) as (_ & V1 & _).
+    destruct (step_frame eqv s1 (ErrWake a)) as (_ & V2 & _); [discriminate|].
+    apply (hstep_nolp h m (Some (HErr a em))); auto.
+    + repeat apply step_inv. exact HI.
+    + apply step_eager; [discriminate | discriminate |]. apply step_eager; [exact (proj1 Hne1) | exact (proj2 Hne1) | exact HE].
+    + rewrite V2. exact V1.
+    + rewrite (step_absv_pc eqv s1 (ErrWake a) I). unfold s1, e1. destruct em; cbn [mon_event]; rewrite R3.
+      * now rewrite (step_absv_send eqv s a false x G Hch Hcl).
+      * now rewrite (step_absv_send eqv s a true x G Hch Hcl).
+      * now rewrite (step_absv_close eqv s a x G Hch).
+Qed.
+
+Lemma hstep_ok h m e h' o : HInv h -> MR h m -> hstep h e = Some (h', o) ->
+  HInv h' /\ MR h' (fst (mon m e o)) /\ snd (mon m e o) = [].
+Proof.
+  unfold hstep, mon. destruct (decode e) as [ev|]; [|discriminate]. apply hstep_ev_ok.
+Qed.
+
+Lemma init_ok cfg : HInv (hinit cfg) /\ MR (hinit cfg) (minit cfg).
+Proof.
+  assert (H : forall c v0, HInv {| eqc := c; ms := init v0 |} /\
+                           MR {| eqc := c; ms := init v0 |} {| meq := c; mcur := v0; mas := []; mprev := [] |}).
+  { intros c v0. split; [split; [apply init_inv | intros [|a] x w u ch G; discriminate] | repeat split]. }
+  destruct cfg as [|c [|v0 t]]; cbn [hinit minit]; apply H.
+Qed.
+
+Lemma monitor_accepts evs : forall i h m rep, HInv h -> MR h m ->
+  monitor mon i m rep evs (run_obs hstep h evs) = [].
+Proof.
+  induction evs as [|e evs IH]; intros i h m rep HH HR; cbn [run_obs monitor]; [reflexivity|].
+  destruct (hstep h e) as [[h' o]|] eqn:Hs; [|reflexivity]. cbn [monitor].
+  destruct (hstep_ok h m e h' o HH HR Hs) as (HH' & HR' & Hf).
+  destruct (mon m e o) as [m' fails]. cbn [fst snd] in *. subst fails. cbn [filter map app]. now apply IH.
+Qed.
+
+(* for every event list: the monitors, run on the model's own observations (up to the first event the
+   schedule-level step does not accept), report nothing *)
+Theorem model_satisfies_monitors cfg evs :
+  monitor mon 0 (minit cfg) [] evs (run_obs hstep (hinit cfg) evs) = [].
+Proof. destruct (init_ok cfg) as (HH & HR). now apply monitor_accepts. Qed.
+
+Lemma list_eqb_refl l : list_eqb l l = true.
+Proof. induction l as [|x t IH]; cbn; [reflexivity | now rewrite N.eqb_refl, IH]. Qed.
+
+Lemma replay_self evs : forall i h, length (run_obs hstep h evs) = length evs ->
+  replay hstep i h evs (run_obs hstep h evs) = [].
+Proof.
+  induction evs as [|e evs IH]; intros i h Hl; cbn [run_obs replay] in *; [reflexivity|].
+  destruct (hstep h e) as [[h' o]|]; [|discriminate]. cbn [length] in Hl. rewrite list_eqb_refl. apply IH. lia.
+Qed.
+
+(* the whole checker accepts the model's own run on every event list the schedule-level step accepts *)
+Theorem run_check_accepts_model cfg evs :
+  length (run_obs hstep (hinit cfg) evs) = length evs ->
+  run_check_ccontainer cfg evs (run_obs hstep (hinit cfg) evs) = [].
+Proof.
+  intros Hl. unfold run_check_ccontainer, run_check. rewrite (replay_self evs 0 _ Hl). apply model_satisfies_monitors.
+Qed.
